@@ -721,8 +721,9 @@ class CategoricalROISubsetState(SubsetState):
     @contract(data='isinstance(Data)', view='array_view')
     def to_mask(self, data, view=None):
         x = data[self.att, view]
-        result = self.roi.contains(x, None)
-        assert x.shape == result.shape
+        # np.asarray since the result for a single element is a plain bool
+        result = np.asarray(self.roi.contains(x, None))
+        assert np.shape(x) == result.shape
         return result
 
     def copy(self):
